@@ -81,6 +81,12 @@ CLAIMED["C15"] = dict(
     technique="contract-based deductive verification: representation invariant + per-arm frame conditions (object-graph snapshots) on the sliced interpreter step",
     design="DESIGN.md section 4 (C15)")
 
+CLAIMED["C08"] = dict(
+    text="Proof on the finite automaton: the LALR(1) table PLY derives from the current docstrings and precedence tuple of NslParser is built in memory on every run; from every state in which a complete expression can start, the real action/goto tables are simulated on `a o1 b o2 c` (169 pairs x all following terminals), `a o1 b o2 c o3 d` (2197 triples), both parenthesised forms and `x ASG a o1 b o2 c` for the five assignment operators, and the reductions must build exactly the grouping of the declared levels, left to right. LR decisions depend only on the state stack and one lookahead, so this is complete over all inputs. The grammar actions (operands in source order, operator of that spelling) and the operator token rules are checked as well.",
+    note="Trusted: PLY's table interpreter (LRParser.parse) and lexer; operands are identifiers. The whitespace clause is a bounded stand-in (real lexer on all operator x separator layouts).",
+    technique="contract-based verification on the real LALR table: exhaustive simulation of the action/goto tables from every expression-start state (complete for an LR parser)",
+    design="DESIGN.md section 4 (C08)")
+
 NOT_YET = "not built yet in this round (design in DESIGN.md section 4); will be claimed when its obligations run"
 NA = {
     "C17": "pickle round trip across processes is the whole property; no contract within reach of the technique can decide it (DESIGN.md section 5)",
